@@ -11,7 +11,7 @@ Open Scope Q_scope.
 Definition interextra_get (table : list knot) (q : query) : result :=
   elementwise (interextra_value (interextra_getter table)) q.
 Definition interextra_int (table : list knot) (u l : query) : result :=
-  elementwise2 (interextra_integral (interextra_getter table)) u l.
+  elementwise2 (interextra_integral (interextra_antiderivative table)) u l.
 
 (* FluidPropertyLinear *)
 Definition linear_get (offset slope : Q) (q : query) : result := elementwise (linear_value offset slope) q.
